@@ -139,6 +139,34 @@ start :: fn do
 end
 ''', {})
 
+T("comparison_before_mutation", "comparison-of-mutable-aggregates-then-mutation", '''
+Pt :: blob {
+    x: int,
+}
+grow :: fn l: [int] -> int do
+    l -> list.push(2)
+    ret 0
+end
+bump :: fn p: Pt -> int do
+    p.x += 1
+    ret 0
+end
+second :: fn a: bool, b: int -> bool do
+    ret a
+end
+start :: fn do
+    xs := [?a]
+    ys := [?a]
+    t := (xs == ys, grow(xs))
+    print(t[0])
+    print(second(xs != ys, grow(ys)))
+    p := Pt { x: ?a }
+    q := Pt { x: ?a }
+    u := (p == q, bump(p))
+    print(u[0])
+end
+''', {"a": (0, 2)}, tags=("order",))
+
 T("fresh_value_per_activation", "literal-values-are-fresh-per-activation", '''
 mk :: pu -> [int] do
     ret [0]
